@@ -455,8 +455,9 @@ pub fn gen_query(src: &mut Src, root: &J, cfg: &GenCfg) -> Query {
     // descendants over nested filters multiply) is replaced by the trivial query: neither the harness
     // nor the library is asked to do that much work, and no verdict is derived from it
     oracle::reset();
-    let _ = oracle::eval(&q, root, &strict());
-    if oracle::take_gave_up() {
+    let n = oracle::eval(&q, root, &strict()).len();
+    // (also: results of thousands of nodes, each of which a check may re-query)
+    if oracle::take_gave_up() || n > 2_000 {
         return Query { abs: true, segs: vec![] };
     }
     q
